@@ -224,6 +224,11 @@ def _finish(tname, fname, root, ctx, kwargs, tok):
                 ext = collections.ChainMap(ext)
                 ctx.count("F1_extensions_chainmap")
         raise ResolverError(error_message(path), extensions=ext)
+    if fault == "badenum":
+        # a value that is no member of the field's enum type
+        ctx.log("re", path, ctx.req_id)
+        ctx.count("F_bad_enum_value")
+        return "no-such-internal-value"
     if fault is not None and fault.startswith("boom"):
         ctx.log("rb", path, ctx.req_id)
         ctx.count("F3_boom")
@@ -599,6 +604,31 @@ class StartsOnlyRecorder(Instrumentation):
         self._log("field_start", tuple(info.path))
 
 
+class MiddlewareObject:
+    """A middleware given as a configured callable OBJECT that compares by
+    value (a frozen-dataclass style policy object).  Every request configures
+    an instance of its own; what an instance has seen is its own state."""
+
+    def __init__(self, tag):
+        self.tag = tag
+        self.seen = 0
+
+    def __eq__(self, other):
+        return isinstance(other, MiddlewareObject) and other.tag == self.tag
+
+    def __hash__(self):
+        return hash(("MiddlewareObject", self.tag))
+
+    def __call__(self, next_, root, ctx, info, /, **kwargs):
+        path = tuple(info.path)
+        self.seen += 1
+        ctx.log("mw_enter", path, (self.tag, ctx.req_id))
+        try:
+            return next_(root, ctx, info, **kwargs)
+        finally:
+            ctx.log("mw_exit", path, (self.tag, ctx.req_id))
+
+
 def make_middleware(tag, is_async=False):
     def mw(next_, root, ctx, info, **kwargs):
         path = tuple(info.path)
@@ -627,7 +657,7 @@ def make_middleware(tag, is_async=False):
 # --------------------------------------------------------------------------
 class Outcome:
     __slots__ = ("config", "status", "result", "exc", "kernel", "loop_info",
-                 "ctx", "blocking_waits", "l2")
+                 "ctx", "blocking_waits", "l2", "mw_bypassed")
 
     def __init__(self, config):
         self.config = config
